@@ -288,11 +288,16 @@ def parseFencedCode (cfg : MdCfg) (mt : RxMatch) (st : BlockState) : PMRes := do
     else token
   return (some endPos, st.appendToken token)
 
+/-- the text computation of `parse_atx_heading`: `m.group("atx_2").strip()`, then (when non-empty)
+`_ATX_HEADING_TRIM.sub("", text)` -/
+def atxText (cfg : MdCfg) (g2 : Str) : Str :=
+  let text := Py.strip g2
+  if !text.isEmpty then Py.reSub (cfg.rx "mistune.block_parser._ATX_HEADING_TRIM") (fun _ _ => []) text else text
+
 /-- `BlockParser.parse_atx_heading` -/
 def parseAtxHeading (cfg : MdCfg) (mt : RxMatch) (st : BlockState) : PMRes :=
   let level := (grp cfg st mt "atx_1").length
-  let text := Py.strip (grp cfg st mt "atx_2")
-  let text := if !text.isEmpty then Py.reSub (cfg.rx "mistune.block_parser._ATX_HEADING_TRIM") (fun _ _ => []) text else text
+  let text := atxText cfg (grp cfg st mt "atx_2")
   let token := tok "heading" [("text", .str text), ("attrs", .obj [("level", .num level)]), ("style", Json.s "atx")]
   .ok (some (mt.stop + 1), st.appendToken token)
 
